@@ -80,6 +80,16 @@ def check_file(raw, want, invalid):
         path = os.path.join(tmp, 'y.syx')
         with open(path, 'wb') as f:
             f.write(bytes(raw))
+        # history: files that end in the middle of a message were read earlier (round 13: one parser shared by all calls);
+        # what a file yields depends on that file alone
+        for k, poison in enumerate((b'\xf0\x01\xf7\x90\x40', b'\xf0\x7e\x05', b'F0 7E 05')):
+            ppath = os.path.join(tmp, f'p{k}.syx')
+            with open(ppath, 'wb') as f:
+                f.write(poison)
+            try:
+                mido.read_syx_file(ppath)
+            except Exception:  # noqa: BLE001
+                pass
         try:
             got = mido.read_syx_file(path)
         except ValueError as exc:
@@ -205,6 +215,8 @@ def text_files(draw):
     if not parts[0]:
         pass
     data = [b for d in ds for b in R.ref_encode(d)]
+    if draw(st.integers(0, 2)) == 0:
+        data = draw(st.lists(st.integers(0, 127), min_size=1, max_size=3)) + draw(st.sampled_from([[], [0xF7]])) + data
     lower = draw(st.booleans())
     for b in data:
         h = '%02x' % b if (lower or draw(st.integers(0, 3)) == 0) else '%02X' % b
@@ -280,6 +292,11 @@ def main(ctx):
     for style in ('hexdump-crlf', 'tab-indented', 'one-per-line', 'double-space'):
         for n, size in ((3, 5), (40, 1000), (300, 1000)):
             ctx.check({'kind': 'layout', 'n': n, 'size': size, 'style': style}, classes=('layout',), sample=(n == 3))
+    # text files that begin with stray data bytes or a stray end marker (other data is dropped on reading); in text_files
+    # also prepended at random.  After the unfinished files check_file reads first, nothing of them may show here.
+    for text, want in (('01 02 F7 F0 03 F7', [[3]]), ('7F\nF7 F0 04 05 F7', [[4, 5]]), ('F7', []), ('00', []),
+                       ('05 F7 F0 F7', [[]]), ('40 40 F0 01 F7 02 F7', [[1]])):
+        ctx.check({'kind': 'file', 'raw': list(text.encode('ascii')), 'want': want}, classes=('stray-start',))
     for fmt in ('bin', 'text'):
         ctx.check({'kind': 'fifo', 'fmt': fmt, 'msgs': [{'type': 'sysex', 'data': [1, 2, 3], 'time': 0},
                                                       {'type': 'note_on', 'channel': 0, 'note': 1, 'velocity': 2, 'time': 0},
